@@ -46,7 +46,15 @@ def replay(recs):
             site = f"Segment.contains/{dim}D" + ("/ray" if r["ray"] else "")
             case0 = {"a": r["a"], "b": r["b"], "ray": r["ray"]}
             mixed = lambda: g.Segment(np.array([list(r["a"]) + [1], [-2 * v for v in r["b"]] + [-2]]))  # noqa: E731
-            for name, mk in (("", lambda: g.Segment(a, b)), ("/reversed", lambda: g.Segment(b, a))) + \
+
+            def edited():
+                # another segment, queried, then given these end points through item assignment
+                s0 = g.Segment(g.Point(*[v + 3 for v in r["a"]]), g.Point(*[v - 4 for v in r["a"]]))
+                s0.contains(g.Point(*r["a"]))
+                s0[0] = np.asarray(a.array)
+                s0[1] = np.asarray(b.array)
+                return s0
+            for name, mk in (("", lambda: g.Segment(a, b)), ("/reversed", lambda: g.Segment(b, a)), ("/vertices-assigned-in-place", edited)) + \
                     ((("/mixed-sign-representatives", mixed),) if not r["ray"] else ()):
                 try:
                     seg = mk()
@@ -87,6 +95,15 @@ def replay(recs):
         fac = [1, -1, 2, -3, 1, -2]
         classes = [("Polygon", lambda: g.Polygon(*verts)),
                    ("Polygon[mixed-sign-representatives]", lambda: g.Polygon(np.array([np.asarray(v.array) * f for v, f in zip(verts, fac)])))]
+        def edited_poly():
+            # another polygon (the same one pushed elsewhere), queried, then given these vertices through item assignment
+            shift = np.array([5] * dim + [0])
+            P0 = g.Polygon(np.array([np.asarray(v.array) + shift * np.asarray(v.array)[-1] for v in verts]))
+            P0.contains(verts[0])
+            for k, v in enumerate(verts):
+                P0[k] = np.asarray(v.array)
+            return P0
+        classes.append(("Polygon[vertices-assigned-in-place]", edited_poly))
         if len(poly) == 3:
             classes.append(("Triangle", lambda: g.Triangle(*verts)))
         else:
